@@ -1,5 +1,198 @@
 -------------------------------- MODULE A64 --------------------------------
+(***************************************************************************)
+(* M4, AArch64: one step function per instruction form that                *)
+(* axcut2aarch64's `Code` can print (GNU syntax, tok_a64.py).              *)
+(*   P.code, P.labels as for X86; every instruction is 4 bytes:            *)
+(*   P.addr[i]   number of real instructions before code index i           *)
+(*   P.ataddr[k] code index of the k-th real instruction (1-based)         *)
+(* AAPCS64: X0-X7 arguments/result, X0-X17 caller-saved, X19-X28 + X29     *)
+(* (frame) callee-saved, X30 link register, SP 16-byte aligned whenever it *)
+(* is used as a base address and at every call.                            *)
+(***************************************************************************)
 EXTENDS Values
-A64Init(P, args, nblocks) == [status |-> "fail"]
-A64Step(P, s) == s
+
+A64CalleeSaved == {"X19", "X20", "X21", "X22", "X23", "X24", "X25", "X26", "X27", "X28", "X29"}
+A64CallerSaved == {"X0", "X1", "X2", "X3", "X4", "X5", "X6", "X7", "X8", "X9", "X10", "X11", "X12", "X13", "X14",
+                   "X15", "X16", "X17"}
+A64ArgRegs == <<"X1", "X2", "X3", "X4", "X5", "X6", "X7">>   \* X0 carries the heap pointer
+A64Regs == A64CalleeSaved \cup A64CallerSaved \cup {"X18", "X30", "SP"}
+
+AFailS(s, tag, why) == [s EXCEPT !.status = "fail", !.tag = tag, !.why = why]
+
+A64Init(P, args, nblocks) ==
+  LET regs0 == [r \in A64Regs |->
+                  IF r = "SP" THEN StkV(0)
+                  ELSE IF r = "X0" THEN PtrV(0, 0)
+                  ELSE IF r = "X30" THEN RetV
+                  ELSE IF r \in A64CalleeSaved THEN InitV(r)
+                  ELSE IF \E i \in 1..Len(args) : i <= 7 /\ A64ArgRegs[i] = r
+                       THEN IntV(args[CHOOSE i \in 1..Len(args) : A64ArgRegs[i] = r])
+                       ELSE UndefV]
+  IN [pc |-> P.labels["asm_main"], regs |-> regs0,
+      stk |-> <<>>, heap |-> <<>>, flags |-> NoFlagsV, nblocks |-> nblocks,
+      out |-> <<>>, status |-> "run", tag |-> "", why |-> "", result |-> UndefV, steps |-> 0, hi |-> 0]
+
+A64Get(s, r) == IF r = "XZR" THEN ZeroV ELSE s.regs[r]
+A64Set(s, r, v) ==
+  IF r = "XZR" THEN s
+  ELSE IF r = "SP" /\ v.t # "stk" THEN AFailS(s, "mem", "stack pointer set to a non-stack value")
+  ELSE [s EXCEPT !.regs[r] = v]
+
+\* address of [base, off]: <<"heap", key>> / <<"stk", off>> / <<"bad", tag, why>> / <<"exhausted">>
+A64Addr(s, base, off) ==
+  LET b == A64Get(s, base)
+  IN IF b.t = "ptr" THEN
+        LET o == b.o + off
+        IN IF o < 0 \/ o >= BlockBytes \/ (o % 8) # 0 \/ b.b < 0 THEN <<"bad", "mem", "heap access outside the addressed block">>
+           ELSE IF b.b >= s.nblocks THEN <<"exhausted">>
+           ELSE <<"heap", HeapKey(b.b, o \div 8)>>
+     ELSE IF b.t = "stk" THEN
+        LET o == b.o + off
+        IN IF base # "SP" THEN <<"bad", "mem", "stack access through a register other than SP">>
+           ELSE IF (b.o % 16) # 0 THEN <<"bad", "align", "SP not 16-byte aligned at a stack access">>
+           ELSE IF o < 0 /\ ((-o) % 8) = 0 /\ off >= 0 THEN <<"stk", o>>
+           ELSE <<"bad", "mem", "stack access outside the routine's own frame">>
+     ELSE IF IsJunk(b) THEN <<"bad", "undef", "memory access through an undefined register">>
+     ELSE <<"bad", "mem", "memory base is not a pointer (" \o b.t \o ")">>
+
+A64Load(s, ad) == IF ad[1] = "heap" THEN Sparse(s.heap, ad[2], ZeroV) ELSE Sparse(s.stk, ad[2], UndefV)
+A64Store(s, ad, v) ==
+  IF ad[1] = "heap"
+    THEN [s EXCEPT !.heap = (ad[2] :> v) @@ s.heap,
+                   !.hi = IF (ad[2] \div SlotsPerBlock) > s.hi THEN ad[2] \div SlotsPerBlock ELSE s.hi]
+  ELSE [s EXCEPT !.stk = (ad[2] :> v) @@ s.stk]
+A64AddrFail(s, ad) == IF ad[1] = "exhausted" THEN [s EXCEPT !.status = "model-heap-exhausted"] ELSE AFailS(s, ad[2], ad[3])
+
+A64ValFail(s, v) == AFailS(s, IF v.why = "arithmetic on undefined value" THEN "undef" ELSE "value", v.why)
+
+\* operand-form restrictions of the printed instruction
+A64Unencodable(i) ==
+  IF i.op \in {"ADD", "SUB"} /\ i.a[3].k = "imm" THEN (IF i.a[3].big \/ i.a[3].s < 0 \/ i.a[3].s > 4095 THEN i.op \o " immediate outside 0..4095" ELSE "")
+  ELSE IF i.op = "CMP" /\ i.a[2].k = "imm" THEN (IF i.a[2].big \/ i.a[2].s < 0 \/ i.a[2].s > 4095 THEN "CMP immediate outside 0..4095" ELSE "")
+  ELSE IF i.op \in {"LDR", "STR"} THEN
+       (IF i.a[2].off < 0 \/ i.a[2].off > 32760 \/ (i.a[2].off % 8) # 0 THEN i.op \o " offset outside 0..32760 or not a multiple of 8" ELSE "")
+  ELSE IF i.op \in {"LDP", "STP"} THEN
+       (LET o == IF i.op = "LDP" THEN (IF Len(i.a) >= 4 /\ ~i.a[4].big THEN i.a[4].s ELSE 100000) ELSE i.a[3].off
+        IN IF o < -512 \/ o > 504 \/ (o % 8) # 0 THEN i.op \o " offset outside -512..504 or not a multiple of 8" ELSE "")
+  ELSE IF i.op \in {"MOVZ", "MOVN", "MOVK"} THEN
+       (IF i.a[2].big \/ i.a[2].s < 0 \/ i.a[2].s > 65535 THEN i.op \o " immediate outside 0..65535"
+        ELSE IF i.a[3].n \notin {0, 16, 32, 48} THEN i.op \o " shift not in {0,16,32,48}" ELSE "")
+  ELSE ""
+
+\* target of a jump to CodeV(l, o): every instruction is 4 bytes
+A64Resolve(P, v) ==
+  IF v.t # "code" \/ v.l \notin DOMAIN P.labels THEN 0
+  ELSE IF v.o < 0 \/ (v.o % 4) # 0 THEN 0
+  ELSE LET k == P.addr[P.labels[v.l]] + (v.o \div 4) + 1
+       IN IF v.o = 0 THEN P.labels[v.l] ELSE IF k <= Len(P.ataddr) THEN P.ataddr[k] ELSE 0
+
+ANext1(s) == [s EXCEPT !.pc = s.pc + 1, !.steps = s.steps + 1]
+AClearFlags(s) == s   \* only CMP (SUBS) sets flags on this subset; ADD/SUB/MUL leave them alone
+
+\* halfword insertion / MOVZ / MOVN on limbs
+HwIdx(sh) == (sh \div 16) + 1
+MovzW(imm16, sh) == [k \in 1..4 |-> IF k = HwIdx(sh) THEN imm16 ELSE 0]
+MovnW(imm16, sh) == [k \in 1..4 |-> IF k = HwIdx(sh) THEN 65535 - imm16 ELSE 65535]
+MovkW(w, imm16, sh) == [k \in 1..4 |-> IF k = HwIdx(sh) THEN imm16 ELSE w[k]]
+
+A64ExternCall(s, name) ==
+  LET sp == s.regs["SP"]
+  IN IF name \notin {"print_i64", "println_i64"} THEN AFailS(s, "asm", "call of unknown external symbol " \o name)
+     ELSE IF sp.t # "stk" \/ (sp.o % 16) # 0 THEN AFailS(s, "align", "SP not 16-byte aligned at call")
+     ELSE IF IsJunk(s.regs["X0"]) THEN AFailS(s, "undef", "undefined value passed to " \o name)
+     ELSE IF s.regs["X0"].t # "int" THEN AFailS(s, "value", "non-integer passed to " \o name)
+     ELSE [s EXCEPT !.out = Append(s.out, <<name, s.regs["X0"].w>>),
+                    !.regs = [r \in A64Regs |-> IF r \in A64CallerSaved \cup {"X30", "X18"} THEN UndefV ELSE s.regs[r]],
+                    !.flags = NoFlagsV,
+                    !.stk = [o \in {k \in DOMAIN s.stk : k >= sp.o} |-> s.stk[o]],
+                    !.pc = s.pc + 1, !.steps = s.steps + 1]
+
+A64Ret(s) ==
+  LET sp == s.regs["SP"]
+  IN IF s.regs["X30"] # RetV THEN AFailS(s, "cc", "RET with a link register that does not hold the caller's return address")
+     ELSE IF sp.t # "stk" \/ sp.o # 0 THEN AFailS(s, "cc", "RET with the stack pointer not at its entry value")
+     ELSE IF \E r \in A64CalleeSaved : s.regs[r] # InitV(r)
+          THEN AFailS(s, "cc", "callee-saved register " \o (CHOOSE r \in A64CalleeSaved : s.regs[r] # InitV(r)) \o " not restored")
+     ELSE IF IsJunk(s.regs["X0"]) THEN AFailS(s, "undef", "undefined value returned")
+     ELSE IF s.regs["X0"].t # "int" THEN AFailS(s, "value", "result is not an integer")
+     ELSE [s EXCEPT !.status = "done", !.result = s.regs["X0"]]
+
+A64Step(P, s) ==
+  LET i == P.code[s.pc]
+      op == i.op
+  IN
+  IF op \in {"label", "mark"} THEN ANext1(s)
+  ELSE IF A64Unencodable(i) # "" THEN AFailS(s, "encode", "unencodable instruction: " \o A64Unencodable(i))
+  ELSE IF op \in {"ADD", "SUB", "MUL", "SDIV"} THEN
+     LET x == A64Get(s, i.a[2].r)
+         y == IF i.a[3].k = "imm" THEN IntV(i.a[3].w) ELSE A64Get(s, i.a[3].r)
+     IN IF IsJunk(x) \/ IsJunk(y) THEN AFailS(s, "undef", op \o " on an undefined value")
+        ELSE IF op = "SDIV" THEN
+             (IF x.t # "int" \/ y.t # "int" THEN AFailS(s, "value", "SDIV on non-integer")
+              ELSE IF ~DivDefined(x.w, y.w) THEN [s EXCEPT !.status = "source-undefined"]
+              ELSE ANext1(A64Set(s, i.a[1].r, IntV(SDiv(x.w, y.w)))))
+        ELSE LET r == IF op = "ADD" THEN AddV(x, y) ELSE IF op = "SUB" THEN SubV(x, y) ELSE MulV(x, y)
+             IN IF IsBad(r) THEN A64ValFail(s, r) ELSE ANext1(A64Set(s, i.a[1].r, r))
+  ELSE IF op = "MSUB" THEN   \* Xd = Xa - Xn * Xm
+     LET n == A64Get(s, i.a[2].r) m == A64Get(s, i.a[3].r) a == A64Get(s, i.a[4].r)
+     IN IF IsJunk(n) \/ IsJunk(m) \/ IsJunk(a) THEN AFailS(s, "undef", "MSUB on an undefined value")
+        ELSE IF n.t # "int" \/ m.t # "int" \/ a.t # "int" THEN AFailS(s, "value", "MSUB on non-integer")
+        ELSE ANext1(A64Set(s, i.a[1].r, IntV(Sub(a.w, Mul(n.w, m.w)))))
+  ELSE IF op = "MOV" THEN ANext1(A64Set(s, i.a[1].r, A64Get(s, i.a[2].r)))
+  ELSE IF op = "MOVZ" THEN ANext1(A64Set(s, i.a[1].r, IntV(MovzW(i.a[2].s, i.a[3].n))))
+  ELSE IF op = "MOVN" THEN ANext1(A64Set(s, i.a[1].r, IntV(MovnW(i.a[2].s, i.a[3].n))))
+  ELSE IF op = "MOVK" THEN
+     LET x == A64Get(s, i.a[1].r)
+     IN IF IsJunk(x) THEN AFailS(s, "undef", "MOVK into an undefined register")
+        ELSE IF x.t # "int" THEN AFailS(s, "value", "MOVK into a non-integer")
+        ELSE ANext1(A64Set(s, i.a[1].r, IntV(MovkW(x.w, i.a[2].s, i.a[3].n))))
+  ELSE IF op = "ADR" THEN ANext1(A64Set(s, i.a[1].r, CodeV(i.a[2].l, 0)))
+  ELSE IF op = "LDR" THEN
+     LET ad == A64Addr(s, i.a[2].base, i.a[2].off)
+     IN IF ad[1] \in {"bad", "exhausted"} THEN A64AddrFail(s, ad) ELSE ANext1(A64Set(s, i.a[1].r, A64Load(s, ad)))
+  ELSE IF op = "STR" THEN
+     LET ad == A64Addr(s, i.a[2].base, i.a[2].off)
+     IN IF ad[1] \in {"bad", "exhausted"} THEN A64AddrFail(s, ad) ELSE ANext1(A64Store(s, ad, A64Get(s, i.a[1].r)))
+  ELSE IF op = "STP" THEN   \* pre-index: SP := SP + off; store pair at SP, SP + 8
+     LET sp == s.regs["SP"]
+     IN IF i.a[3].base # "SP" \/ ~i.a[3].pre THEN AFailS(s, "tool", "STP form not modelled")
+        ELSE IF sp.t # "stk" THEN AFailS(s, "mem", "STP with a corrupt stack pointer")
+        ELSE LET n == sp.o + i.a[3].off
+             IN IF (n % 16) # 0 THEN AFailS(s, "align", "SP not 16-byte aligned at a stack access")
+                ELSE IF n >= 0 \/ i.a[3].off > -16 THEN AFailS(s, "mem", "STP outside the routine's own frame")
+                ELSE ANext1([s EXCEPT !.regs["SP"] = StkV(n),
+                                      !.stk = (n :> A64Get(s, i.a[1].r)) @@ ((n + 8) :> A64Get(s, i.a[2].r)) @@ s.stk])
+  ELSE IF op = "LDP" THEN   \* post-index: load pair from SP, SP + 8; SP := SP + imm
+     LET sp == s.regs["SP"]
+     IN IF i.a[3].base # "SP" \/ i.a[3].pre \/ i.a[3].hasoff \/ Len(i.a) # 4 THEN AFailS(s, "tool", "LDP form not modelled")
+        ELSE IF sp.t # "stk" THEN AFailS(s, "mem", "LDP with a corrupt stack pointer")
+        ELSE IF (sp.o % 16) # 0 THEN AFailS(s, "align", "SP not 16-byte aligned at a stack access")
+        ELSE IF sp.o + 16 > 0 THEN AFailS(s, "mem", "LDP beyond the routine's own frame")
+        ELSE LET s1 == A64Set(s, i.a[1].r, Sparse(s.stk, sp.o, UndefV))
+                 s2 == A64Set(s1, i.a[2].r, Sparse(s.stk, sp.o + 8, UndefV))
+             IN ANext1([s2 EXCEPT !.regs["SP"] = StkV(sp.o + i.a[4].s),
+                                  !.stk = [o \in {k \in DOMAIN s.stk : k >= sp.o + i.a[4].s} |-> s.stk[o]]])
+  ELSE IF op = "CMP" THEN
+     LET x == A64Get(s, i.a[1].r)
+         y == IF i.a[2].k = "imm" THEN IntV(i.a[2].w) ELSE A64Get(s, i.a[2].r)
+     IN ANext1([s EXCEPT !.flags = <<x, y>>])
+  ELSE IF op \in {"BEQ", "BNE", "BLT", "BLE", "BGT", "BGE"} THEN
+     LET cc == CASE op = "BEQ" -> "eq" [] op = "BNE" -> "ne" [] op = "BLT" -> "lt" [] op = "BLE" -> "le" [] op = "BGT" -> "gt" [] OTHER -> "ge"
+         c == Cond(cc, s.flags)
+     IN IF c = "bad" THEN
+             (IF IsJunk(s.flags[1]) \/ IsJunk(s.flags[2]) THEN AFailS(s, "undef", "conditional branch depends on undefined flags or an undefined operand")
+              ELSE AFailS(s, "value", "conditional branch on incomparable operands (" \o s.flags[1].t \o ", " \o s.flags[2].t \o ")"))
+        ELSE IF i.a[1].l \notin DOMAIN P.labels THEN AFailS(s, "asm", "undefined label " \o i.a[1].l)
+        ELSE IF c = "T" THEN [s EXCEPT !.pc = P.labels[i.a[1].l], !.steps = s.steps + 1] ELSE ANext1(s)
+  ELSE IF op = "B" THEN
+     IF i.a[1].l \notin DOMAIN P.labels THEN AFailS(s, "asm", "undefined label " \o i.a[1].l)
+     ELSE [s EXCEPT !.pc = P.labels[i.a[1].l], !.steps = s.steps + 1]
+  ELSE IF op = "BR" THEN
+     LET tgt == A64Get(s, i.a[1].r) j == A64Resolve(P, tgt)
+     IN IF IsJunk(tgt) THEN AFailS(s, "undef", "branch through an undefined register")
+        ELSE IF j = 0 THEN AFailS(s, "jump", "branch target is not a label plus a whole number of instructions")
+        ELSE [s EXCEPT !.pc = j, !.steps = s.steps + 1]
+  ELSE IF op = "BL" THEN A64ExternCall(s, i.a[1].l)
+  ELSE IF op = "RET" THEN A64Ret(s)
+  ELSE AFailS(s, "tool", "unknown instruction " \o op)
 =============================================================================
